@@ -792,6 +792,17 @@ impl AsnDefWriter {
                         .to_string(),
                 ),
             ),
+            RustType::VecU8(..) => (
+                Cow::Borrowed("Vec<u8>"),
+                Cow::Borrowed("[u8]"),
+                Cow::Owned(
+                    default
+                        .as_rust_const_literal_expect(true, |l| {
+                            matches!(l, LiteralValue::OctetString(..))
+                        })
+                        .to_string(),
+                ),
+            ),
             t => (
                 Cow::Owned(t.to_string()),
                 t.to_const_lit_string(),
